@@ -292,18 +292,18 @@ def run_case(spec):
             viol.append(V(site + '.fit', 'index_fit_raises', 'refit after replacing the preprocessor raised %s: %s'
                           % (type(e).__name__, str(e)[:150]), [pk, 'replaced_preprocessor']))
     # ---- deviation: an exception inside the callable surfaces as PreprocessorError from every method
-    if pk == 'callable':
-        def boom(ids):
-            raise KeyError('boom')
+    for exc_type in ((KeyError, RuntimeError, FileNotFoundError, ZeroDivisionError) if pk == 'callable' else ()):
+        def boom(ids, exc_type=exc_type):
+            raise exc_type('boom')
         eb = zoo.make(name, ds, preprocessor=boom)
         try:
             eb.fit(*index_args)
-            viol.append(V(site + '.fit', 'preprocessor_error', 'raising preprocessor: fit returned normally', ['raising']))
+            viol.append(V(site + '.fit', 'preprocessor_error', 'raising preprocessor: fit returned normally', ['raising', exc_type.__name__]))
         except PreprocessorError:
             pass
         except Exception as e:
             viol.append(V(site + '.fit', 'preprocessor_error', 'raising preprocessor: fit raised %s instead of PreprocessorError'
-                          % type(e).__name__, ['raising']))
+                          % type(e).__name__, ['raising', exc_type.__name__]))
         eb = zoo.make(name, ds, preprocessor=boom).fit(*formed_args)
         meths = [('transform', (np.arange(3),)), ('pair_distance', (np.array([[0, 1]]),)), ('pair_score', (np.array([[0, 1]]),))]
         if kind == 'pairs':
@@ -317,11 +317,11 @@ def run_case(spec):
             evals += 1
             try:
                 getattr(eb, meth)(*a)
-                viol.append(V(site + '.' + meth, 'preprocessor_error', 'raising preprocessor: %s returned normally' % meth, ['raising']))
+                viol.append(V(site + '.' + meth, 'preprocessor_error', 'raising preprocessor: %s returned normally' % meth, ['raising', exc_type.__name__]))
             except PreprocessorError:
-                sigs.add((name, 'raising', meth))
+                sigs.add((name, 'raising', exc_type.__name__, meth))
             except Exception as e:
                 viol.append(V(site + '.' + meth, 'preprocessor_error', 'raising preprocessor: %s raised %s instead of '
-                              'PreprocessorError' % (meth, type(e).__name__), ['raising']))
+                              'PreprocessorError' % (meth, type(e).__name__), ['raising', exc_type.__name__]))
     return dict(evals=evals, sigs=sigs, viol=viol,
                 sample={'estimator': name, 'dataset': dsn, 'preprocessor': pk, 'index_forms': INDEX_FORMS})
